@@ -322,7 +322,7 @@ def run(rep, tier, seed):
     rej = {x[0] for x in rejects}
     missing = [p["id"] for p in probes if p["id"] not in rej]
     if missing or not probes:
-        raise core.MachineryError("P accepted corrupted traces: %s" % missing)
+        core.probe_fail(rejects, "P accepted corrupted traces: %s" % missing)
     rep.extra["probes_rejected"] = len(probes)
     rep.traces = len(traces)
     rep.evaluations = len(cases)
